@@ -324,6 +324,18 @@ func (s *server) processChunkWithReordering(stream clusterv1.ChunkedSyncService_
 	}
 
 	if req.ChunkIndex > buffer.expectedIndex {
+		// Validate before buffering: a buffered chunk is acknowledged right away, so a
+		// corrupted one must be refused now, while the sender can still retry it.
+		if calculatedChecksum := fmt.Sprintf("%x", crc32.ChecksumIEEE(req.ChunkData)); calculatedChecksum != req.ChunkChecksum {
+			errMsg := fmt.Sprintf("chunk %d checksum mismatch: expected %s, got %s",
+				req.ChunkIndex, req.ChunkChecksum, calculatedChecksum)
+			s.log.Warn().Str("session_id", req.SessionId).Msg(errMsg)
+			if s.metrics != nil {
+				op, grp, sn, sr, st := s.resolveSessionLabels(session)
+				s.metrics.totalErr.Inc(1, op, grp, sn, sr, st, "checksum_mismatch")
+			}
+			return s.sendResponse(stream, req, clusterv1.SyncStatus_SYNC_STATUS_CHUNK_CHECKSUM_MISMATCH, errMsg, nil)
+		}
 		gap := req.ChunkIndex - buffer.expectedIndex
 
 		if gap > s.maxChunkGapSize {
